@@ -142,7 +142,7 @@ structure Node where
   condition : Option Str
   format : Option Str
   tags : List Str
-  options : List (Str × Option Str)
+  options : List (Val × Option Str)
   description : Option Str
   imported : Bool            -- `isource` set
 
@@ -231,7 +231,7 @@ def query (ns : List Node) (q : Query) : List Node :=
 
 structure Env where
   nodes : List Node
-  units : List (Str × Str × Option Str)        -- `$unit` definitions (name, value, unit)
+  units : List (Str × Val × Option Str)        -- `$unit` definitions (name, value, unit)
   sources : List (Str × List Node)             -- remote DIP sources: name ↦ parsed nodes
   parents : List (Nat × Str)                   -- hierarchy
 
@@ -432,13 +432,23 @@ inductive PropLine where
   | condition (e : Str)
   | format (f : Str)
   | tags (l : List Str)
-  | option (raw : Str) (unit : Option Str)
+  | option (raw : Val) (unit : Option Str)
   | description (d : Str)
+
+/-- a `@case` / `@else` / `@end` line; a condition is a literal `true`/`false` or a bare
+    reference `{?flag}` (expressions are C18's) -/
+inductive CaseKind where
+  | cond (raw : Option Val) (ref : Option Str)
+  | els
+  | fin
 
 inductive Item where
   | node (n : Node)                       -- group / typed / modification / import line
   | prop (p : PropLine)
-  | unitdef (name value : Str) (unit : Option Str)
+  | unitdef (name : Str) (value : Val) (unit : Option Str)     -- `$unit name = value unit`
+  | unitref (name : Str) (ref : Str) (unit : Option Str)       -- `$unit name = {ref} unit`
+  | optref (ref : Str) (unit : Option Str)                     -- option line `= {ref} unit`
+  | case (indent : Nat) (k : CaseKind)
 
 def isTyped : Kw → Bool
   | .bool => true | .int => true | .float => true | .str => true
@@ -469,14 +479,49 @@ def applyProp (p : PropLine) (n : Node) : Except String Node :=
       | some old => some (old ++ d) }
     else .error "description"
 
+/-- `self.inject_value(env, host)` for a host that is not a node of the list (`$unit`, option
+    line): the referenced node's current value, and the host's own unit or else the adopted one -/
+def injectHost (env : Env) (ref : Str) (unit : Option Str) : Except String (Val × Option Str) :=
+  match request env ref .one with
+  | .error e => .error e
+  | .ok [] => .error "inject: impossible"
+  | .ok (src :: _) =>
+    match rawValue src with
+    | none => .error "inject: no value"
+    | some v => .ok (v, pickUnit unit src.unitsRaw)
+
+/-- the unit text is empty or a unit of the table -/
+def unitKnown (tbl : UnitTable) : Option Str → Bool
+  | none => true
+  | some u => (lookupUnit tbl u).isSome
+
+/-- `UnitNode.parse`: `Quantity(float(value_raw), units_raw)` and `env.units.append` -/
+def addUnit (tbl : UnitTable) (env : Env) (name : Str) (v : Val) (unit : Option Str) : Except String Env :=
+  match v with
+  | .num _ =>
+    if !unitKnown tbl unit then .error "unknown unit"
+    else if env.units.any (fun u => u.1 = name) then .error "unit exists"
+    else .ok { env with units := env.units ++ [(name, v, unit)] }
+  | _ => .error "unit value is not a number"
+
 def step (tbl : UnitTable) (env : Env) : Item → Except String Env
   | .prop p =>
     match updateLast (applyProp p) env.nodes with
     | .ok ns => .ok { env with nodes := ns }
     | .error e => .error e
-  | .unitdef name value unit =>
-    if env.units.any (fun u => u.1 = name) then .error "unit exists"
-    else .ok { env with units := env.units ++ [(name, value, unit)] }
+  | .unitdef name value unit => addUnit tbl env name value unit
+  | .unitref name ref unit =>
+    match injectHost env ref unit with
+    | .error e => .error e
+    | .ok (v, u) => addUnit tbl env name v u
+  | .optref ref unit =>
+    match injectHost env ref unit with
+    | .error e => .error e
+    | .ok (v, u) =>
+      match updateLast (applyProp (.option v u)) env.nodes with
+      | .ok ns => .ok { env with nodes := ns }
+      | .error e => .error e
+  | .case _ _ => .error "case line: see stepC"
   | .node n =>
     if n.kw = .imp then
       match importNodes env n with
@@ -498,6 +543,101 @@ def parse (tbl : UnitTable) (base : Env) (items : List Item) : Except String Env
   match items.foldlM (step tbl) base with
   | .error e => .error e
   | .ok env => validate env
+
+/-! ### `@case` chains (flat: no clause nested in another clause) -/
+
+/-- the open branch: indent of its clauses, whether an earlier clause was true, whether the
+    current clause is selected, whether `@else` was seen -/
+structure Branch where
+  indent : Nat
+  anyTrue : Bool
+  selected : Bool
+  afterElse : Bool
+
+structure CEnv where
+  env : Env
+  branch : Option Branch
+
+/-- the condition of a clause: a literal or the injected current value of a boolean node
+    (`CaseNode.inject_value` injects unless an ENCLOSING clause is unselected — never in a flat chain) -/
+def caseValue (env : Env) (raw : Option Val) (ref : Option Str) : Except String Bool :=
+  match ref with
+  | some r =>
+    match request env r .one with
+    | .error e => .error e
+    | .ok [] => .error "inject: impossible"
+    | .ok (src :: _) =>
+      match rawValue src with
+      | some (.bool b) => .ok b
+      | _ => .error "case: not a boolean"
+  | none =>
+    match raw with
+    | some (.bool b) => .ok b
+    | _ => .error "case: not a boolean"
+
+/-- the main loop of `DIP.parse` with flat `@case` chains: clauses register in the hierarchy
+    (their name is cleaned away again: only the popping is visible), only the first true clause
+    of a branch is selected, lines of an unselected clause are skipped but still registered -/
+def stepC (tbl : UnitTable) (c : CEnv) : Item → Except String CEnv
+  | .case indent k =>
+    let env' := { c.env with parents := popParents indent c.env.parents }
+    match k with
+    | .cond raw ref =>
+      match caseValue c.env raw ref with
+      | .error e => .error e
+      | .ok v =>
+        match c.branch with
+        | none => .ok ⟨env', some ⟨indent, v, v, false⟩⟩
+        | some b =>
+          if b.indent ≠ indent then .error "nested / misplaced clause: outside the model"
+          else if b.afterElse then .error "clause after @else"
+          else .ok ⟨env', some ⟨indent, b.anyTrue || v, v && !b.anyTrue, false⟩⟩
+    | .els =>
+      match c.branch with
+      | none => .error "@else without branch"
+      | some b =>
+        if b.indent ≠ indent then .error "nested / misplaced clause: outside the model"
+        else if b.afterElse then .error "clause after @else"
+        else .ok ⟨env', some ⟨indent, true, !b.anyTrue, true⟩⟩
+    | .fin =>
+      match c.branch with
+      | none => .error "@end without branch"
+      | some b =>
+        if b.indent ≠ indent then .error "nested / misplaced clause: outside the model"
+        else .ok ⟨env', none⟩
+  | .node n =>
+    -- `close_cases`: a named line at or below the clause indent ends the branch
+    let br := match c.branch with
+      | some b => if n.indent ≤ b.indent then none else some b
+      | none => none
+    match br with
+    | some b =>
+      if b.selected then
+        match step tbl c.env (.node n) with
+        | .ok e => .ok ⟨e, br⟩
+        | .error e => .error e
+      else .ok ⟨{ c.env with parents := (register c.env.parents n).1 }, br⟩
+    | none =>
+      match step tbl c.env (.node n) with
+      | .ok e => .ok ⟨e, none⟩
+      | .error e => .error e
+  | it =>
+    match c.branch with
+    | some b =>
+      if b.selected then
+        match step tbl c.env it with
+        | .ok e => .ok ⟨e, c.branch⟩
+        | .error e => .error e
+      else .ok c
+    | none =>
+      match step tbl c.env it with
+      | .ok e => .ok ⟨e, none⟩
+      | .error e => .error e
+
+def parseC (tbl : UnitTable) (base : Env) (items : List Item) : Except String Env :=
+  match items.foldlM (stepC tbl) ⟨base, none⟩ with
+  | .error e => .error e
+  | .ok c => validate c.env
 
 /-! ### Specification -/
 
@@ -527,7 +667,7 @@ structure SNode where
   condition : Option Str
   format : Option Str
   tags : List Str
-  options : List (Str × Option Str)
+  options : List (Val × Option Str)
   description : Option Str
 
 inductive SQuery where
@@ -560,13 +700,18 @@ inductive SStmt where
   | condition (path : List Str) (e : Str)
   | format (path : List Str) (f : Str)
   | tags (path : List Str) (l : List Str)
-  | option (path : List Str) (raw : Str) (unit : Option Str)
+  | option (path : List Str) (v : SVal) (unit : Option Str)
   | description (path : List Str) (d : Str)
+  | unitdef (name : Str) (v : SVal) (unit : Option Str)
+  | caseCond (v : SVal)
+  | caseElse
+  | caseEnd
 
 structure SEnv where
   nodes : List SNode
   sources : List (Str × List SNode)
   mayReject : Bool          -- an import selected nothing: rejecting the program is also allowed
+  units : List (Str × Val × Option Str)      -- custom units (name, value, unit)
 
 /-- `rejected`: the property demands an error.  `outside`: the property is silent. -/
 inductive SErr where
@@ -683,7 +828,23 @@ def sStep (tbl : UnitTable) (env : SEnv) : SStmt → Except SErr SEnv
   | .condition path e => sAttr env path (fun n => { n with condition := some e })
   | .format path f => sAttr env path (fun n => { n with format := some f })
   | .tags path l => sAttr env path (fun n => { n with tags := n.tags ++ l })
-  | .option path r u => sAttr env path (fun n => { n with options := n.options ++ [(r, u)] })
+  | .option path sv unit =>
+    match sEval env sv with
+    | .error e => .error e
+    | .ok (v, u) => sAttr env path (fun n => { n with options := n.options ++ [(v, pickUnit unit u)] })
+  | .unitdef name sv unit =>
+    match sEval env sv with
+    | .error e => .error e
+    | .ok (v, u) =>
+      match v with
+      | .num _ =>
+        if !unitOk tbl .float (pickUnit unit u) then .error .outside
+        else if env.units.any (fun x => x.1 = name) then .error .outside
+        else .ok { env with units := env.units ++ [(name, v, pickUnit unit u)] }
+      | _ => .error .outside
+  | .caseCond _ => .error .outside      -- clauses are handled by `sStepC`
+  | .caseElse => .error .outside
+  | .caseEnd => .error .outside
   | .description path d => sAttr env path (fun n => { n with description := match n.description with
       | none => some d
       | some old => some (old ++ d) })
@@ -694,6 +855,35 @@ def sRun (tbl : UnitTable) (env : SEnv) : List SStmt → Except SErr SEnv
   | s :: rest => match sStep tbl env s with
     | .error e => .error e
     | .ok env' => sRun tbl env' rest
+
+/-- flat `@case` chains on the specification side: (an earlier clause was true, the current
+    clause is selected); a condition is the referenced node's current boolean value -/
+def sStepC (tbl : UnitTable) (c : SEnv × Option (Bool × Bool)) : SStmt → Except SErr (SEnv × Option (Bool × Bool))
+  | .caseCond sv =>
+    match sEval c.1 sv with
+    | .error e => .error e
+    | .ok (.bool v, _) =>
+      (match c.2 with
+       | none => .ok (c.1, some (v, v))
+       | some (anyTrue, _) => .ok (c.1, some (anyTrue || v, v && !anyTrue)))
+    | .ok _ => .error .outside
+  | .caseElse =>
+    match c.2 with
+    | none => .error .outside
+    | some (anyTrue, _) => .ok (c.1, some (true, !anyTrue))
+  | .caseEnd => .ok (c.1, none)
+  | st =>
+    match c.2 with
+    | some (_, false) => .ok c
+    | _ => match sStep tbl c.1 st with
+      | .ok e => .ok (e, c.2)
+      | .error e => .error e
+
+def sRunC (tbl : UnitTable) (c : SEnv × Option (Bool × Bool)) : List SStmt → Except SErr (SEnv × Option (Bool × Bool))
+  | [] => .ok c
+  | s :: rest => match sStepC tbl c s with
+    | .error e => .error e
+    | .ok c' => sRunC tbl c' rest
 
 /-! ### Heap view of `Environment.copy` / `Node.copy` (for the frame properties) -/
 
@@ -727,7 +917,7 @@ def hStep {α : Type} (s : Heap α × List Nat) : HOp α → Heap α × List Nat
 /-- the mutable attribute objects a node object refers to -/
 inductive AttrObj where
   | value (v : Option Val) (unit : Option Str)      -- the `Type` object
-  | options (l : List (Str × Option Str))
+  | options (l : List (Val × Option Str))
   | tags (l : List Str)
   | dimension (l : List Dim)
 
